@@ -121,6 +121,7 @@ def main():
             not_decidable.append(f)
 
     results = smt.solve_all(queries, tq, workers=14, order=["z3new", "cvc5"], progress=1000)
+    results = smt.replayable_models(queries, results, tq, workers=14, order=["z3new", "cvc5"])
     ck.count(results)
     n_w = disagreements = 0
     def depth_of(node):
